@@ -20,7 +20,7 @@ class ReaderRunner:
 
     def execute(self, cases):
         impl = run.run_impl(cases) or ['<harness died>'] * len(cases)
-        model, spec = run.run_model(cases)
+        model, spec = run.run_model(cases, impl)
         return impl, model, spec
 
     def judge(self, cases):
@@ -41,12 +41,10 @@ class ReaderRunner:
         impl = run.run_impl(lines, timeout=120)
         if impl is None:
             return [False] * len(lines)
-        _, spec = run.run_model(lines)
+        _, spec = run.run_model(lines, impl)
         out = []
         for c, o, s in zip(lines, impl, spec):
-            case = parse_case(c)
-            toks, log = split_obs(canon(o))
-            v = self.oracle(case, toks, log, parse_spec(case['fmt'], canon(s)))
+            v = self.raw_oracle(c, o, s)
             out.append(bool(v and v.failures and v.failures[0].split(' ')[0:1] != [] and _sig(v.failures[0]) == key))
         return out
 
@@ -62,10 +60,8 @@ class ReaderRunner:
         small = self.shrink_oracle(case, msg)
         try:
             impl = run.run_impl([small], timeout=120)
-            _, spec = run.run_model([small])
-            c = parse_case(small)
-            toks, log = split_obs(canon(impl[0]))
-            v = self.oracle(c, toks, log, parse_spec(c['fmt'], canon(spec[0])))
+            _, spec = run.run_model([small], impl)
+            v = self.raw_oracle(small, impl[0], spec[0])
             if v and v.failures:
                 return small, v.failures[0], impl[0]
         except Exception:
